@@ -82,8 +82,10 @@ type pGene struct {
 	Lpc int  `json:"lpc"` // identity of the backing array of Link.Params (0: none) - mutable state like everything else
 }
 type pEnd struct {
-	N int `json:"n"`
-	W int `json:"w"`
+	N int  `json:"n"`
+	W int  `json:"w"`
+	R bool `json:"r"`
+	T int  `json:"t"`
 }
 type pMod struct {
 	Inn  int    `json:"inn"`
@@ -165,10 +167,10 @@ func (in *interner) genome(g *genetics.Genome) pGenome {
 		pm := pMod{Inn: int(cg.InnovationNum), Mut: in.f(cg.MutationNum), En: cg.IsEnabled, Nid: cn.Id, Act: int(cn.ActivationType),
 			Tr: traitId(cn.Trait), Ins: []pEnd{}, Outs: []pEnd{}, C: in.p(cg, false), Nc: in.p(cn, false)}
 		for _, l := range cn.Incoming {
-			pm.Ins = append(pm.Ins, pEnd{N: l.InNode.Id, W: in.f(l.ConnectionWeight)})
+			pm.Ins = append(pm.Ins, pEnd{N: l.InNode.Id, W: in.f(l.ConnectionWeight), R: l.IsRecurrent, T: traitId(l.Trait)})
 		}
 		for _, l := range cn.Outgoing {
-			pm.Outs = append(pm.Outs, pEnd{N: l.OutNode.Id, W: in.f(l.ConnectionWeight)})
+			pm.Outs = append(pm.Outs, pEnd{N: l.OutNode.Id, W: in.f(l.ConnectionWeight), R: l.IsRecurrent, T: traitId(l.Trait)})
 		}
 		r.Mods = append(r.Mods, pm)
 	}
